@@ -15,14 +15,14 @@ CLAIMED = {
             "fast path's four scanning loops shows every byte it copies verbatim is a byte the general parser leaves "
             "unchanged; path-signature, forbidden host/domain, scheme-character, delimiter and special-scheme tables "
             "(incl. the perfect hash) equal the Standard's sets for all 256 bytes; the parser's state switch is "
-            "exhaustive. The transition logic for every string is a value-level matter and is not decided.",
+            "exhaustive. The transition logic for every string is a value-level matter and is not decided. Also: the parser's direct failure exits fail under the flag the Standard names (atSignSeen for the empty authority).",
             "table algebra + byte-domain abstract interpretation of scanning loops + CFG state-machine graph",
             "DESIGN.md §5 C01", "partial: table/shortcut agreement only"),
     "C03": ("other",
             "Decides failure atomicity as a path property: a typestate fixpoint over the CFG of each of the 24 setter "
             "bodies (callee effects from summaries of their own CFGs, restores modelled exactly, boolean results "
             "tracked) shows every exit that reports failure is reached with every written field restored. That a "
-            "successful setter produces the Standard's state is value-level and not decided.",
+            "successful setter produces the Standard's state is value-level and not decided. Also (rule shared with C19): the protocol setter's three state-override refusals and its default-port elision are present in all four copies.",
             "typestate dataflow over per-instantiation CFGs with interprocedural summaries",
             "DESIGN.md §5 C03", "partial: the 'fails atomically' sentence"),
     "C04": ("other",
@@ -30,7 +30,7 @@ CLAIMED = {
             "functions the canonicalised validation conditions guarding failing exits agree between ada::url and "
             "ada::url_aggregator; in each of the 19 parser states both instantiations have the same component write "
             "sites; memcmp-based in-place shortcuts are equality tests. Equality of all getters for all inputs is "
-            "value-level and not decided.",
+            "value-level and not decided. Also: the two parse_ipv6 bodies are statement-for-statement identical (alpha-renamed normal form) up to the storage epilogue; the four copies of the protocol setter's state-override block agree.",
             "twin-skeleton comparison (A5) + per-state effect comparison over the state-machine graph (A3/A9)",
             "DESIGN.md §5 C04", "partial; skeleton canonicalisation uses a frozen correspondence of the two storages"),
     "C05": ("other",
@@ -45,7 +45,7 @@ CLAIMED = {
             "Decides the structural premises: stable sort; the comparator's two UTF-8->UTF-16 decoders are mirror "
             "images; list syntax bytes (& = + %) are in the serializer's encode set, key and value are both decoded, "
             "'+' decodes to space; C wrappers delegate by name (C17). List-model behaviour over operation sequences "
-            "is not decided.",
+            "is not decided. Also: the form-urlencoded decoder copies a cursor byte only after a test on the cursor as it stands and writes ' ' only for '+'.",
             "resolved-callee query + twin-skeleton comparison + table algebra",
             "DESIGN.md §5 C12", "partial"),
     "C14": ("other",
@@ -53,7 +53,7 @@ CLAIMED = {
             "statement, arguments bound to the parameter of the same name), identical handling of the four component "
             "types by fast_test and fast_match (same acceptance condition per enumerator, same provider arguments), "
             "and identical input plumbing of test and match (type_error, failure -> no match, delimiter stripping). "
-            "Regex semantics / captured groups are not decided.",
+            "Regex semantics / captured groups are not decided. Also: a default-constructed result<T> is never read as a 'was it set' flag (defect F6, fixed); the literal and regex forms of 'protocol matches a special scheme' list the same schemes; test and match strip the same delimiters the same number of times.",
             "slot-consistency (A6) and twin-skeleton (A5) rules over the explicit std_regex_provider instantiation",
             "DESIGN.md §5 C14", "partial"),
     "C15": ("other",
@@ -61,7 +61,7 @@ CLAIMED = {
             "symbolically from the shortcut loops and char_class_table) are subsets of the bytes the parser-based slow "
             "path leaves unchanged, the hostname shortcut is dominated by !is_ipv4, the protocol canonicaliser's byte "
             "classes equal the Standard's, and every component flows through its own field / process_N / "
-            "canonicalize_N / component slot. Equality with the parser-based definition for every value is not decided.",
+            "canonicalize_N / component slot. Equality with the parser-based definition for every value is not decided. Also: each canonicaliser scans and encodes with the one percent-encode set of its component.",
             "byte-set semantics + must-dataflow + slot consistency",
             "DESIGN.md §5 C15", "partial"),
     "C07": ("other",
@@ -70,7 +70,7 @@ CLAIMED = {
             "known omitted or recomputed; optional offsets are shifted only under a `!= omitted` fact; offsets behind "
             "a buffer edit position are updated; members are owning value types with compiler-generated copy/move; "
             "only the frozen friends can write buffer/components. Whether validate() accepts every reachable object "
-            "(values of deltas) is not decided.",
+            "(values of deltas) is not decided. Also byte accounting: every acyclic path of the 20 in-place editors is replayed symbolically and every offset it writes — and every delimiter it inserts — must end where the inserts/erases put that boundary.",
             "typestate dataflow over editor CFGs with callee summaries + record/friend queries",
             "DESIGN.md §5 C07", "partial: shape of the editors, not the values"),
     "C13": ("other",
@@ -88,7 +88,7 @@ CLAIMED = {
             "the default-port elision exist and agree in all four copies of parse_scheme<true>; set_host_or_hostname "
             "refusals are present and identical in both types; a port is stored only behind the default-port test / base "
             "copy / snapshot restore; every stored scheme was lower-cased or matched against the lower-case list. The "
-            "invariants of all reachable objects (values) are not decided.",
+            "invariants of all reachable objects (values) are not decided. Also: no refusal test in the scheme/host/port setters is statically dead.",
             "typestate (guard-before-mutation) + twin-skeleton agreement + who-writes queries + must-dataflow",
             "DESIGN.md §5 C19", "partial"),
     "C02": ("other",
@@ -110,7 +110,7 @@ CLAIMED = {
             "masked, reject-only and applied identically by both URL types; development-check-only statements are "
             "effect-free and no statement is release-only; the amalgamated distribution compiles identical bodies. "
             "Equality of outputs over all inputs, soundness of the IPv6 prefilter's rejections, and absence of firing "
-            "assertions are not decided.",
+            "assertions are not decided. Also: the asserted offset-consistency predicate rejects only decreasing chains; the AVX-512 IPv6 prefilter's thresholds are no tighter than the IPv6 grammar.",
             "exact per-lane evaluation of vector kernels from AST facts + cross-configuration differencing of per-function "
             "facts + must-dataflow of range facts + effect queries",
             "DESIGN.md §5 C18", "partial"),
@@ -119,7 +119,7 @@ CLAIMED = {
             "(must-dataflow over the CFG), the failed-handle exit returns the documented default, each wrapper calls "
             "the member of the same name and pairs data()/length() of one object, pointer/length parameters are "
             "paired, allocation/access/free types agree per handle, header (parsed as C) and implementation agree on "
-            "signatures and struct layouts (ada_url_components field by field with ada::url_components).",
+            "signatures and struct layouts (ada_url_components field by field with ada::url_components). Also: no wrapper returns the address of local, static or thread-local storage or the data() of an owning local string.",
             "must-dataflow of engagement facts + slot-consistency and type-agreement queries over resolved AST facts",
             "DESIGN.md §5 C17", "what remains is the behaviour of the wrapped C++ operations (other properties)"),
     "C08": ("other",
@@ -128,14 +128,14 @@ CLAIMED = {
             "is reachable in the full parser; base handled behind is_valid; the fast validator's accepted host bytes and "
             "its IPv4 deferral heuristic are computed symbolically and compared with the forbidden-domain table and "
             "is_ipv4's early-out. One genuine defect (F3, the 3x shortcut) is reported as a known finding. Equivalence "
-            "of the scanner with the parser on all strings is not decided.",
+            "of the scanner with the parser on all strings is not decided. Also: a size-checked parse against a base uses a base built by the storing instantiation.",
             "return-provenance classification + state-graph reachability + must-dataflow + byte-domain abstract interpretation",
             "DESIGN.md §5 C08", "partial"),
     "C10": ("other",
             "Decides that the host kind is written together with the host on every path of every public entry "
             "(parser, fast path, host setters, parse_host; both URL types) by a typestate fixpoint with callee summaries, "
             "and that the IPv6 serializer keeps the first longest zero run. Found and fixed a genuine defect (host_type "
-            "never reset / not inherited). IPv4/IPv6 arithmetic over all values is not decided.",
+            "never reset / not inherited). IPv4/IPv6 arithmetic over all values is not decided. Also: the IPv4 number parser's radix dispatch and per-radix digit sets equal the Standard's; the IPv6 parsers of the two URL types are identical up to storage.",
             "typestate dataflow (pairing of two effects) with interprocedural summaries + comparison-form rule",
             "DESIGN.md §5 C10", "partial: pairing, not the value of the kind"),
     "C09": ("other",
